@@ -121,9 +121,7 @@ def drive_(a, rng):
             t0.edges.drop_metadata()       # extend_haplotypes refuses edge metadata (documented)
             ts0 = t0.tree_sequence()
             ext = ts0.extend_haplotypes()
-            s1, s2 = ts0.simplify().dump_tables(), ext.simplify().dump_tables()
-            s1.provenances.clear()
-            s2.provenances.clear()
+            s1, s2 = simplified_pair(ts0, ext)
             case["ops"].append(dict(op="extend_haplotypes", base="ext", simplify_same=1 if s1.equals(s2) else 0, b=A(ext.dump_tables())))
             case["a_ext"] = A(t0)
     if case["a2"] is None:
@@ -176,12 +174,23 @@ def extend_case(rng):
     ts = t.tree_sequence()
     A = lambda tab: abstr.abstract_of(tab, cmap, tmap, tscale=2)
     ext = ts.extend_haplotypes()
-    s1, s2 = ts.simplify().dump_tables(), ext.simplify().dump_tables()
-    s1.provenances.clear()
-    s2.provenances.clear()
+    s1, s2 = simplified_pair(ts, ext)
     base = A(ts.dump_tables())
     return dict(a=base, a2=base, ops=[dict(op="extend_haplotypes", base="a2", simplify_same=1 if s1.equals(s2) else 0, b=A(ext.dump_tables()))],
                 changed=0 if ext.tables.edges.equals(ts.tables.edges) else 1)
+
+
+def simplified_pair(ts, ext):
+    """simplify both with the node table kept (stable node ids) and put the rows in sorted order: extend_haplotypes documents that
+    simplify recovers the original "possibly with edges in a different order", and with equal node times simplify's own node
+    numbering depends on the order of the input edges"""
+    out = []
+    for x in (ts, ext):
+        t = x.simplify(filter_nodes=False).dump_tables()
+        t.provenances.clear()
+        t.sort()
+        out.append(t)
+    return out[0], out[1]
 
 
 def extend_signature(c, fails):
